@@ -76,6 +76,19 @@ fn main() {
             }
             std::process::exit(orders::run(&args[2], &args[3]));
         }
+        "x" => {
+            // debugging aid: expand one derive input read from a file, print the verdict and the impls one per paragraph
+            let src = std::fs::read_to_string(&args[2]).expect("readable input file");
+            match xp::expand_ts(&src) {
+                Ok(Ok(ts)) => match xp::split_impls(&ts) {
+                    Some(v) => v.iter().for_each(|i| println!("{}\n", xp::canon(i))),
+                    None => println!("UNSPLITTABLE: {}", xp::canon(&ts)),
+                },
+                Ok(Err(m)) => println!("REJECTED: {:?}", m),
+                Err(x) => println!("{}", x.short()),
+            }
+            std::process::exit(0);
+        }
         "expand-file" => {
             if args.len() < 4 {
                 usage();
